@@ -121,6 +121,23 @@ UNIT = {
  'name': 'guard',
  'doc': 'StorageResolver::get: recursion guard on typed loads (push / contains / pop around every load), resolve_flags depth budget',
  'timeout': 600,
+ # BOUNDED native stand-in (vlib/native.py) for C14 / C01: hostile but well-formed files walked through the public read interface, every family
+ # in a child process (a stack overflow cannot be caught). Registered tests = filter `c14_`. Never counted as proved.
+ 'native': {'tests': [
+    {'name': 'hostile_structures_end_in_a_value_or_an_error', 'code': 'native_hostile_structures.rs', 'place': 'pdf/tests/verif_c14_hostile.rs',
+     'filter': 'c14_', 'fn': 'StorageResolver::get', 'props': ['C14', 'C01'], 'tier': 'quick', 'timeout': 900,
+     'bound': '162 hand-generated files / texts in 9 families: page tree (self-kid, kid -> ancestor, /Count 2^31-1 / 2^32-1 / negative / 0 / real, '
+              '/Parent loops, 12 .. 3000 nested nodes) | /Prev (itself, 2-loop, beyond EOF, 0, negative, 2^63; classic and stream sections) | object '
+              'streams (member of itself, two containing each other, /Extends cycles, container not a stream, index beyond /N, /N /First 2^31) | stream '
+              '/Length (the stream itself, another stream, reference loop, negative, 2^31-1, 2^64-1) | reference chains (1000 long; cycles of length '
+              '1, 2, 3, 41 behind every followed field) | name / number trees and outlines (self, 2-cycle, fan-out 8, 40 and 1000 levels) | functions, '
+              'colour spaces, fonts naming themselves (type 3 self / 2-cycle / 1000 levels, type 0 /Size 2^31, type 4 nesting 2000) | xref numbers '
+              '(/W huge / zero / negative, /Index count 2^31, /Size 2^31 and 50 000 000 with tiny data, classic subsection count 2^31) | nesting '
+              '([[..]] and <<..>> 200 and 10 000 deep, bare and inside a file; literal strings with 1 000 000 open / escaped parentheses); each opened '
+              'with {strict, tolerant} x {uncached, cached} and walked (pages, boxes, resources, fonts, contents, trees, every object number through '
+              '12 typed readers, stream data, recovery scan); 8 MiB stack, 5 s watchdog, 512 MiB heap limit per case',
+     'contract': 'every walk returns (values or errors) within the watchdog; no panic, no stack overflow / abort, peak heap below the limit'},
+ ]},
  'items': {
   'struct PlainRef': {'kind': 'decl', 'file': M, 'header': r'^pub struct PlainRef$', 'attrs': ['#[derive(Clone, Copy, PartialEq, Eq, Structural)]']},
   'enum Primitive': {'kind': 'decl', 'file': P, 'header': r'^pub enum Primitive$'},
